@@ -52,7 +52,7 @@ static std::string visible(const std::string &s) { return jsonEscape(s); }
 static void fail(const std::string &clause, const std::string &detail, const std::string &replay) { g_rep->violation(g_prop + ":" + g_cfg + ":" + clause, detail, replay); }
 
 // ------------------------------------------------------------------------------- graph sequences
-struct Ins { unsigned i, j; long v; };
+struct Ins { unsigned i, j; long v; bool force = false; };
 template <class G> void buildSeq(unsigned n, const std::vector<Ins> &seq, G &g, Model &m) {
     using T = Tr<G>;
     using L = typename T::Label;
@@ -61,20 +61,36 @@ template <class G> void buildSeq(unsigned n, const std::vector<Ins> &seq, G &g, 
     m.directed = T::directed;
     m.n = n;
     for (auto &s : seq) {
-        if constexpr (T::labelled) g.addEdge(s.i, s.j, LabelAlpha<L>::value(s.v));
-        else g.addEdge(s.i, s.j);
+        if constexpr (T::labelled) g.addEdge(s.i, s.j, LabelAlpha<L>::value(s.v), s.force);
+        else g.addEdge(s.i, s.j, s.force);
+        if (s.force && m.e.count(m.canon(s.i, s.j))) { m.e[m.canon(s.i, s.j)].copies += 1; continue; }
         Ent en;
         en.v = s.v;
         m.e[m.canon(s.i, s.j)] = en;
     }
 }
+static size_t copiesIn(const Model &m) {
+    size_t c = 0;
+    for (auto &p : m.e) c += (size_t)p.second.copies;
+    return c;
+}
+static bool hasDuplicates(const Model &m) { return copiesIn(m) != m.e.size(); }
+// "equals the original": operator== both ways; for a graph holding forced parallel copies of a pair (C16) the
+// comparison is made on the public-API key with neighbour lists sorted, so that it does not depend on what
+// operator== means for such graphs
+template <class G> bool sameGraph(const G &a, const G &b, const Model &m) {
+    if (hasDuplicates(m)) return keyOf(a, true, true) == keyOf(b, true, true);
+    return a == b && b == a;
+}
 static std::string seqText(const std::vector<Ins> &seq) {
     std::string s;
-    for (auto &x : seq) s += std::to_string(x.i) + ":" + std::to_string(x.j) + ":" + std::to_string(x.v) + ",";
+    for (auto &x : seq) s += std::to_string(x.i) + ":" + std::to_string(x.j) + ":" + std::to_string(x.v) + (x.force ? ":f" : "") + ",";
     return s;
 }
 // all sequences of <= maxLen distinct pairs over nv vertices with all value assignments
-template <class G, class F> void forAllSequences(unsigned nv, int maxLen, int nValues, F f) {
+// withDuplicate: additionally every such sequence followed by ONE forced re-insertion of a pair it already
+// holds (same value; for undirected graphs under both namings of the pair) - a graph with a parallel edge
+template <class G, class F> void forAllSequences(unsigned nv, int maxLen, int nValues, F f, bool withDuplicate = false) {
     using T = Tr<G>;
     std::vector<std::pair<unsigned, unsigned>> pairs;
     for (unsigned i = 0; i < nv; ++i)
@@ -83,6 +99,15 @@ template <class G, class F> void forAllSequences(unsigned nv, int maxLen, int nV
     std::set<std::pair<unsigned, unsigned>> used;
     std::function<void()> rec = [&]() {
         f(seq);
+        if (withDuplicate && !seq.empty()) {
+            std::vector<Ins> base = seq;
+            for (auto &e : base)
+                for (int swap = 0; swap < ((!T::directed && e.i != e.j) ? 2 : 1); ++swap) {
+                    seq.push_back({swap ? e.j : e.i, swap ? e.i : e.j, e.v, true});
+                    f(seq);
+                    seq.pop_back();
+                }
+        }
         if ((int)seq.size() == maxLen) return;
         for (auto &p : pairs) {
             auto c = (T::directed || p.first <= p.second) ? p : std::make_pair(p.second, p.first);
@@ -172,13 +197,13 @@ template <template <class...> class GT, class L> void c13RoundTrip(int maxLen) {
                         continue;
                     }
                     h.resize(n);
-                    if (!(h == g) || !(g == h))
+                    if (!sameGraph(h, g, m))
                         fail("c13.roundtrip", "graph loaded back (and resized to the original size) differs from the original " + m.str() + " built by " + seqText(seq) + "; loaded key " + keyOf(h, true) + ", original key " + keyOf(g, true) + "; file " + visible(readFile(file)), replay);
                 } catch (...) {
                     fail("c13.load", "loadTextEdgeList threw " + std::string(outcomeName(classifyCurrentException())) + " on a file written by writeTextEdgeList for " + m.str() + ": " + visible(readFile(file)), replay);
                 }
             }
-        });
+        }, true);
     }
 }
 
@@ -391,16 +416,16 @@ template <template <class...> class GT, class L> void c14RoundTrip(int maxLen) {
                 want += encodeIndex(e.first) + encodeIndex(e.second);
                 if constexpr (T::labelled) want += encodeLE<L>(g.getEdgeLabel(e.first, e.second));
             }
-            if (bytes.size() != m.e.size() * rec) fail("c14.length", "file has " + std::to_string(bytes.size()) + " bytes for " + std::to_string(m.e.size()) + " edges of " + std::to_string(rec) + " bytes; graph " + m.str(), replay);
+            if (bytes.size() != copiesIn(m) * rec) fail("c14.length", "file has " + std::to_string(bytes.size()) + " bytes for " + std::to_string(copiesIn(m)) + " edges of " + std::to_string(rec) + " bytes; graph " + m.str(), replay);
             else if (bytes != want) fail("c14.layout", "file bytes " + hex(bytes) + " differ from the little-endian records " + hex(want) + " of " + m.str(), replay);
             // (iii)+(iv): load twice
             try {
                 G h = loadBin<GT, L>(file), h2 = loadBin<GT, L>(file);
                 size_t wantSize = expectedLoadedSize<G>(m);
                 if (h.getSize() != wantSize) { fail("c14.size", "loaded graph has " + std::to_string(h.getSize()) + " vertices, expected 1+largest used index = " + std::to_string(wantSize) + " for " + m.str(), replay); return; }
-                if (!(h == h2) || keyOf(h, true) != keyOf(h2, true)) fail("c14.deterministic", "loading the same bytes twice gave different graphs for " + m.str(), replay);
+                if ((!hasDuplicates(m) && !(h == h2)) || keyOf(h, true) != keyOf(h2, true)) fail("c14.deterministic", "loading the same bytes twice gave different graphs for " + m.str(), replay);
                 h.resize(n);
-                if (!(h == g) || !(g == h)) fail("c14.roundtrip", "graph loaded back (and resized) differs from the original " + m.str() + " built by " + seqText(seq) + ": loaded key " + keyOf(h, true) + " original key " + keyOf(g, true) + " file " + hex(bytes), replay);
+                if (!sameGraph(h, g, m)) fail("c14.roundtrip", "graph loaded back (and resized) differs from the original " + m.str() + " built by " + seqText(seq) + ": loaded key " + keyOf(h, true) + " original key " + keyOf(g, true) + " file " + hex(bytes), replay);
                 // (v) every permutation of the records loads to an equal graph
                 size_t R = bytes.size() / rec;
                 if (R >= 2 && R <= 4 && bytes.size() == R * rec) {
@@ -413,13 +438,13 @@ template <template <class...> class GT, class L> void c14RoundTrip(int maxLen) {
                         G hp = loadBin<GT, L>(file2);
                         hp.resize(n);
                         ++g_cases;
-                        if (!(hp == g) || !(g == hp)) fail("c14.order", "hand-made file with the records of " + m.str() + " in another order (" + hex(pb) + ") loads to a different graph", "--part onebin --n " + std::to_string(n) + " --hex " + hex(pb) + " --seq " + seqText(seq));
+                        if (!sameGraph(hp, g, m)) fail("c14.order", "hand-made file with the records of " + m.str() + " in another order (" + hex(pb) + ") loads to a different graph", "--part onebin --n " + std::to_string(n) + " --hex " + hex(pb) + " --seq " + seqText(seq));
                     }
                 }
             } catch (...) {
                 fail("c14.load", "loadBinaryEdgeList threw " + std::string(outcomeName(classifyCurrentException())) + " on a file written by writeBinaryEdgeList for " + m.str() + " (" + hex(bytes) + ")", replay);
             }
-        });
+        }, true);
     }
 }
 
